@@ -13,7 +13,6 @@ use crate::srv::{self, Srv};
 use kanidmd_lib::entry::{Entry, EntryCommitted, EntryInit, EntryNew, EntrySealed};
 use kanidmd_lib::prelude::*;
 use kanidmd_lib::verif_hooks::IdxKey;
-use kv_engine::forkdfs::fork_eval;
 use kv_engine::{Ctx, Level};
 use serde_json::json;
 use std::collections::{BTreeMap, BTreeSet};
@@ -295,14 +294,13 @@ pub fn run(args: &[String]) -> ! {
     let (mut evals, mut nontrivial, mut nbad) = (0u64, 0u64, 0u64);
     let mut answers: Vec<BTreeMap<String, usize>> = vec![BTreeMap::new(); ts.len()];
     let mut errors = 0u64;
+    // every layout in a forked copy of the populated server; the copies run side by side
+    let outs = match kv_engine::forkdfs::fork_map(kv_engine::product::ncpu().min(16), layouts.len(), |li| run_layout(&srv, &layouts[li], &ts)) {
+        Ok(o) => o,
+        Err(e) => kv_engine::ctx::machinery_exit(&format!("C01 layouts: {e}")),
+    };
     for (li, lay) in layouts.iter().enumerate() {
-        let out = match fork_eval(|| run_layout(&srv, lay, &ts)) {
-            Ok(o) => o,
-            Err(e) => {
-                ctx.machinery_error(format!("layout {lay:?}: {e}"));
-                continue;
-            }
-        };
+        let out = outs[li].clone();
         if out.starts_with("machinery:") {
             ctx.machinery_error(format!("layout {lay:?}: {out}"));
             continue;
